@@ -32,11 +32,12 @@ Front(q) == SubSeq(q, 1, Len(q) - 1)
 (*   S  Gc<RefLock<Static<..>>> NEEDS_TRACE = false, no children           *)
 (*   L  Gc<Lock<..>>           at most one strong and one weak child       *)
 (*   O  Gc<OnceLock<..>>       at most one strong child, set once          *)
+(*   F  Gc<struct {RefLock}>   like N, written through Gc::write + field!  *)
 (*   D  DynamicRootSet          strong children derived from its slots     *)
 (***************************************************************************)
 NeedsTrace(k) == k # "S"
-KidCap(k)  == CASE k = "N" -> MaxKids [] k = "S" -> 0 [] k = "L" -> 1 [] k = "O" -> 1 [] k = "D" -> 0
-WeakCap(k) == CASE k = "N" -> MaxWeak [] k = "S" -> 0 [] k = "L" -> 1 [] k = "O" -> 0 [] k = "D" -> 0
+KidCap(k)  == CASE k \in {"N", "F"} -> MaxKids [] k = "S" -> 0 [] k = "L" -> 1 [] k = "O" -> 1 [] k = "D" -> 0
+WeakCap(k) == CASE k \in {"N", "F"} -> MaxWeak [] k = "S" -> 0 [] k = "L" -> 1 [] k = "O" -> 0 [] k = "D" -> 0
 
 (***************************************************************************)
 (* Barrier paths (C06).  Each path is a distinct call site in the crate;   *)
@@ -52,22 +53,32 @@ WeakCap(k) == CASE k = "N" -> MaxWeak [] k = "S" -> 0 [] k = "L" -> 1 [] k = "O"
 StrongPaths(k) ==
   CASE k = "N" -> {"borrow_mut", "try_borrow_mut", "write_unlock", "gc_unlock",
                    "back_none", "back_some", "fwd_some", "fwd_none"}
-    [] k = "L" -> {"lock_set", "back_some", "fwd_none"}
+    [] k = "F" -> {"field_unlock", "field_write", "back_none", "back_some", "fwd_some", "fwd_none"}
+    [] k = "L" -> {"lock_set", "back_some", "back_none", "fwd_some", "fwd_none"}
     [] k = "O" -> {"once_set", "once_init"}
     [] OTHER   -> {}
 WeakPaths(k) ==
   CASE k = "N" -> {"borrow_mut", "write_unlock", "back_none", "back_weak", "fwd_weak_some", "fwd_weak_none"}
-    [] k = "L" -> {"lock_set", "back_weak", "fwd_weak_none"}
+    [] k = "F" -> {"field_unlock", "back_weak", "fwd_weak_some", "fwd_weak_none"}
+    [] k = "L" -> {"lock_set", "back_weak", "fwd_weak_some", "fwd_weak_none"}
     [] OTHER   -> {}
 RemovePaths(k) ==
   CASE k = "N" -> {"borrow_mut", "raw"}
+    [] k = "F" -> {"field_unlock", "raw"}
     [] k = "L" -> {"lock_set", "raw"}
     [] OTHER   -> {}
+\* barrier calls that are followed by no adoption (also legal on objects that need no tracing)
+BarrierPaths(k) ==
+  CASE k = "N" -> {"borrow_mut", "try_borrow_mut", "write_unlock", "gc_unlock", "back_none", "back_some",
+                   "fwd_some", "fwd_none", "back_weak", "fwd_weak_some", "fwd_weak_none"}
+    [] k = "S" -> {"borrow_mut", "write_unlock", "back_none", "back_some", "back_weak", "fwd_some", "fwd_weak_some"}
+    [] k = "F" -> {"field_unlock", "back_none", "fwd_some"}
+    [] OTHER   -> {"back_none", "back_some", "fwd_some", "fwd_none", "back_weak", "fwd_weak_some", "fwd_weak_none"}
 RootVias == {"mutate_root", "map_root", "try_map_root"}
 
 PathClass(path) ==
   CASE path \in {"borrow_mut", "try_borrow_mut", "write_unlock", "gc_unlock", "back_none",
-                 "lock_set", "once_set", "once_init"} -> "bn"
+                 "lock_set", "once_set", "once_init", "field_unlock", "field_write"} -> "bn"
     [] path = "back_some"      -> "bs"
     [] path = "fwd_some"       -> "fs"
     [] path = "fwd_none"       -> "fn"
@@ -380,6 +391,8 @@ RootWAdd(s, t)              == Mut([RootBarrier(s) EXCEPT !.rootW = @ \cup {t}])
 RootWRemove(s, t)           == Mut([RootBarrier(s) EXCEPT !.rootW = @ \ {t}])
 \* a barrier with no adoption following it
 BarrierOnly(s, path, p, c)  == Mut(ApplyBarrier(s, path, p, c))
+\* upgrade the weak pointer to `t` and, if that succeeds, store the result in `p`
+UpgradeStore(s, t, p, path) == IF CanUpgrade(s, t) THEN Link(s, p, t, path) ELSE s
 \* MarkedArena::finalize with a resurrection
 Finalize(s, t)              == IF t = NoObj THEN s ELSE Mut(Resurrect(s, t))
 
